@@ -152,6 +152,16 @@ class DerivedCred(BaseCred):
     auth_id: int = dataclasses.field(init=False, repr=False, default=1031)
 
 
+@dataclasses.dataclass(frozen=True)
+class Cred1(BaseCred):
+    auth_id: int = dataclasses.field(init=False, repr=False, default=1)  # a choice number RFC 4511 leaves unassigned (LDAPv2 history)
+
+
+@dataclasses.dataclass(frozen=True)
+class Cred2(BaseCred):
+    auth_id: int = dataclasses.field(init=False, repr=False, default=2)
+
+
 OPT = K.OPTS
 RES = L.LDAPResult(L.LDAPResultCode.SUCCESS, "", "", None)
 REQ_X = L.SearchRequest(1, [XControl(True, 7)], "", L.SearchScope.BASE, L.DereferencingPolicy.NEVER, 0, 0, False, L.FilterPresent("a"), []).pack(OPT)
@@ -196,6 +206,7 @@ def _recv_shared(role: str, s: t.Any, part: bytes) -> t.Any:
 OPS: t.Dict[str, t.Dict[str, t.Callable[[t.Any], t.Any]]] = {
     "client": {
         "bind": lambda c: c.bind_simple("cn=a", "pw"),
+        "set_v2": lambda c: setattr(c, "version", 2),  # a public attribute of ONE session
         "search": lambda c: c.search_request(),
         "ext": lambda c: c.extended_request("1.2"),
         "recv_resp1": lambda c: c.receive(PDU_RESP),
@@ -272,7 +283,7 @@ def final_obs(s: t.Any) -> t.Any:
     """What is still pending at the end of a history (a real, full drain) and the state after it."""
     kept = KEPT.pop(id(s), [])
     # messages returned earlier are looked at again: another session must not have changed them
-    return ("final", s.data_to_send().hex(), s.state.name, _obs(kept))
+    return ("final", s.data_to_send().hex(), s.state.name, _obs(kept), A.public_view(s))
 
 
 def new(role: str) -> t.Any:
@@ -473,6 +484,8 @@ def derived_types_check() -> t.List[t.Tuple[str, str]]:
         "VendorPaged": ("register_control", VendorPaged, SR([VendorPaged(True, 5, b"ck")], L.FilterPresent("a")).pack(OPT), lambda m: m.controls[0]),
         "DerivedF": ("register_filter", DerivedF, SR([], L.FilterAnd([DerivedF("v"), L.FilterPresent("a")])).pack(OPT), lambda m: m.filter.filters[0]),
         "DerivedCred": ("register_auth_credential", DerivedCred, L.BindRequest(1, [], 3, "", DerivedCred("tok")).pack(OPT), lambda m: m.authentication),
+        "Cred1": ("register_auth_credential", Cred1, L.BindRequest(1, [], 3, "", Cred1("t1")).pack(OPT), lambda m: m.authentication),
+        "Cred2": ("register_auth_credential", Cred2, L.BindRequest(1, [], 3, "", Cred2("t2")).pack(OPT), lambda m: m.authentication),
         "XControl": ("register_control", XControl, REQ_X, lambda m: m.controls[0]),
         "FFilter": ("register_filter", FFilter, REQ_F, lambda m: m.filter.filter),
         "ACred": ("register_auth_credential", ACred, REQ_A, lambda m: m.authentication),
@@ -692,7 +705,7 @@ def histories(role: str, maxlen: int, ops: t.Optional[t.List[str]] = None) -> t.
 
 
 FOCUS = {
-    "client": [["reg_X", "recv_done_X", "search", "send_X", "recv_SD", "recv_SDv"], ["reg_F", "send_F", "reg_A", "send_A", "bind"], ["recv_half", "recv_rest", "recv_half_buf", "recv_rest_buf", "recv_resp1", "unbind"]],
+    "client": [["reg_X", "recv_done_X", "search", "send_X", "recv_SD", "recv_SDv"], ["reg_F", "send_F", "reg_A", "send_A", "bind", "set_v2"], ["recv_half", "recv_rest", "recv_half_buf", "recv_rest_buf", "recv_resp1", "unbind"]],
     "server": [["reg_X", "recv_X", "recv_search", "resp_done_X", "recv_SD", "recv_SDv"], ["reg_F", "recv_F", "reg_A", "recv_A", "recv_bind", "resp_bind"], ["recv_half", "recv_rest", "recv_half_buf", "recv_rest_buf", "resp_ext", "unbind"]],
 }
 
